@@ -47,7 +47,7 @@ COMPONENTS = {
     "stub": ["CAN backend (SimBus) with fault-injecting transport", "can.Notifier", "time/queue in canopen.sdo.client",
              "SDO server (RefSdoServer)"],
 }
-PROBES = ["client-abort-0x05040000", "queue-flushed", "block-upload-retransmit", "indistinguishable", "followup-ok", "earlier-transfer-timed-out"]
+PROBES = ["client-abort-0x05040000", "queue-flushed", "block-upload-retransmit", "indistinguishable", "followup-ok", "earlier-transfer-timed-out", "local-access-on-the-server-node-during-the-transfer"]
 
 KINDS = ("exp-dl", "exp-ul", "seg-dl", "seg-dl-undeclared", "seg-ul", "blk-dl", "blk-ul",
          # the same against the repository's own SdoServer (LocalNode on a second Network)
@@ -137,6 +137,16 @@ class Plan(Transport):
             return
         k = self.nreq
         self.nreq += 1
+        la = getattr(self.w, "local_access_at", None)
+        if la is not None and k == la and self.w.real:
+            # the application on the SERVER's side reads another object of its own node through the local API while the
+            # remote transfer is under way (between two of its frames); that must not touch the transfer
+            self.w.local_access_at = None
+            try:
+                self.w.local.sdo.upload(0x2000, 1)
+            except Exception:       # noqa
+                pass
+            self.ctx.probe("local-access-on-the-server-node-during-the-transfer")
 
     def route(self, frame, dst):
         ctx = self.ctx
@@ -333,6 +343,7 @@ class RealServerWorld:
         self.net.add_node(self.node)
         self.local = canopen.LocalNode(node_id, od)
         self.net2.add_node(self.local)
+        self.local.data_store.setdefault(0x2000, {})[1] = b"read by the application on the server's side"
         to = (0.3, 0.12, 1.0)[ctx.choice(3, "timeout")]
         worst = 2 * (self.ch.transport.lat_hi + self.ch.frame_time(8))
         if to * SEC < 4 * worst:
@@ -523,6 +534,7 @@ def scenario(ctx):
         else:
             stale = warm[ctx.choice(len(warm), "staleidx")]
     mark = w.ch.n
+    w.local_access_at = (1 + ctx.choice(4, "local-access-at")) if (real and ctx.choice(4, "local-access") == 1) else None
     plan.begin(fault, step, stale)
     if fault == "stale-before" and step == 0:
         # before the very first request of the transfer
